@@ -13,6 +13,15 @@ Binding B: the interpreted functions are called on random strings of length
 code point lists, observed result) and the log is validated by TLC against
 Str_Trace.tla.
 
+Round 3: spec/StrNum.tla (rounding and base 16 as machines on digit sequences:
+negative numbers, integers of any size; its exhaustive cases are observed on
+the interpreter and judged by Str_Trace.tla); templates are text that the model
+scans itself (StrOps.tla: S), so digits, '#', argument numbers of two digits
+and braces that are never closed occur in the literal text; the laws that need
+no table of characters are checked on the characters host string methods treat
+specially (Unicode spaces, invisible marks, special-casing letters, characters
+beyond U+FFFF).
+
 Strings reach the interpreter as values bound in the session environment (not
 as source literals), so the check does not depend on how the lexer reads
 escapes.  The regular-expression engine is not modelled: split is called only
